@@ -2,7 +2,7 @@
 import numpy as np
 
 from mc.core.ctx import Res
-from mc.core import explore
+from mc.core import explore, grid
 from mc.ref import driver
 from mc.props import loopcommon as lc
 
@@ -67,6 +67,11 @@ def ops_fn(cfg, hist):
         ops = [o for o in ops if o[0] not in ("fault", "faultev")]
     if any(o[0] == "intT" for o in hist):
         ops = [o for o in ops if o[0] != "intT"]
+    # between runs: reset() (the next run starts a new dense output from (t0, y0)), and a tolerance set to its own value (the integrator is rebuilt)
+    if hist and hist[-1][0] not in ("reset", "settol") and not any(o[0] == "reset" for o in hist):
+        ops = ops + [("reset",)]
+    if hist and hist[-1][0] not in ("reset", "settol") and not any(o[0] == "settol" for o in hist):
+        ops = ops + [("settol",)]
     return ops
 
 
@@ -84,6 +89,10 @@ def apply_op(a, cfg, op, dtype):
                 obs["disabled"] = True          # not ahead of the current time: would be a reversal (excluded from C06)
                 return obs
             a.integrate(dtype(tgt), callback=b)
+        elif op[0] == "reset":
+            a.reset()
+        elif op[0] == "settol":
+            a.rtol = a.rtol
         elif op[0] == "ev":
             ev, _ = make_event(cfg)
             a.integrate(dtype(tf), events=[ev], callback=b)
@@ -109,6 +118,67 @@ def apply_op(a, cfg, op, dtype):
         obs["raised"] = "budget" if driver.budget_hit(e) else ("boom" if isinstance(e.__cause__, Boom) else repr(e.__cause__)[:160])
     obs["i1"] = len(a) - 1
     return obs
+
+
+def consts_case(case):
+    """'after continued calls': the right-hand side reads a constant of the system (the frequency w of a rotation) that the caller changes between two calls -
+    by assigning a new dictionary or by changing the entry in place.  The first piece of the second call starts at the recorded state with the slope of the
+    right-hand side as it is NOW, and between its grid points it follows the solution of the new problem."""
+    de, I = lc._imports()
+    r = Res()
+    dtype = lc.DT[case["dtype"]]
+    t0, tf = case["span"]
+    name = case["method"]
+
+    def f(t, y, w=1.0, **kw):
+        return w * np.array([y[1], -y[0]], dtype=y.dtype)
+    y0 = np.array([np.sin(t0), np.cos(t0)], dtype=dtype)
+    consts = dict(w=1.0)
+    a = de.OdeSystem(f, y0=y0.copy(), t=(dtype(t0), dtype(tf)), dt=dtype(case["dt0"]), rtol=dtype(case["tol"]), atol=dtype(case["tol"]), dense_output=True, constants=consts)
+    a.method = method_of(name)
+    mid = t0 + 0.5 * (tf - t0)
+    r.n = 1
+    try:
+        a.integrate(dtype(mid), callback=driver.Budget(20000))
+        n1 = len(a)
+        if case["how"] == "assign":
+            a.constants = dict(w=2.0)
+        else:
+            a.constants["w"] = 2.0
+        a.integrate(dtype(tf), callback=driver.Budget(20000))
+    except de.exception_types.FailedIntegration as e:
+        r.add("raised"); r.out(("consts", name, "raised"))
+        return r
+    T = np.asarray(a.t); Y = np.asarray(a.y, dtype=LD)
+    k = n1 - 1                                       # the junction row
+    pieces = [p for p in a.sol.y_interpolants if abs(float(p.t0) - float(T[k])) <= 64 * driver.eps_of(dtype) * max(1.0, abs(float(T[k])))
+              and (float(p.t1) - float(p.t0)) * (tf - t0) > 0]
+    if not pieces:
+        r.v("C06/consts/anchor/%s" % name, "every recorded step has its own piece", case, observed=dict(junction=float(T[k])), expected="a piece starting at the junction")
+        return r
+    p = pieces[0]
+    f_new = 2.0 * np.array([Y[k][1], -Y[k][0]], dtype=LD)
+    e = driver.eps_of(dtype)
+    if np.max(np.abs(np.asarray(p.m0, dtype=LD) - f_new)) > 256 * e * 4:
+        r.v("C06/consts/end-slopes/%s" % name, "piece end slopes equal the right-hand side at the recorded states (the right-hand side in force when the step is taken)", case,
+            observed=dict(m0=np.asarray(p.m0, dtype=float), f_now=f_new.astype(float), f_before=(0.5 * f_new).astype(float)), expected="slope of the current right-hand side")
+    else:
+        # inside the first step of the second call: rotation at the new rate from the junction state
+        h = float(p.t1) - float(p.t0)
+        ang1 = 2.0 * (LD(p.t1) - LD(T[k]))
+        Eg1 = float(np.max(np.abs(np.asarray(p.p1, dtype=LD) - np.array([np.cos(ang1) * Y[k][0] + np.sin(ang1) * Y[k][1], -np.sin(ang1) * Y[k][0] + np.cos(ang1) * Y[k][1]], dtype=LD))))
+        for fr in (0.25, 0.5, 0.75):
+            q = p.t0 + (p.t1 - p.t0) * dtype(fr)
+            ang = 2.0 * (LD(q) - LD(T[k]))
+            want = np.array([np.cos(ang) * Y[k][0] + np.sin(ang) * Y[k][1], -np.sin(ang) * Y[k][0] + np.cos(ang) * Y[k][1]], dtype=LD)
+            err = float(np.max(np.abs(np.asarray(a.sol(q), dtype=LD) - want)))
+            # Hermite remainder for the rate-2 rotation plus the integrator's own error over this step (a fixed-step method of low order takes a long step here)
+            bound = 4 * ((2 * abs(h)) ** 4 / 384 * 1.05 + 2 * (1 + 2 * abs(h)) * Eg1 + 64 * e)
+            if err > bound:
+                r.v("C06/consts/accuracy/%s" % name, "interpolation error between grid points is O(h^4) on top of the integrator's error", dict(case, frac=fr), observed=dict(err=err, bound=bound, h=h), expected="<= bound")
+                break
+    r.out(("consts", name, case["how"], tf > t0))
+    return r
 
 
 def step(cfg, hist):
@@ -267,8 +337,12 @@ def run(ctx):
                         "Richardson wrappers: recorded states reproduced within 50*tol (their pieces come from sub-steps)"]
     if not ctx.only or "bfs" in ctx.only:
         explore.bfs(ctx, configs(ctx), ops_fn, step, depth, section="bfs", horizon=300)
+    if not ctx.only or "consts" in ctx.only:
+        ccases = [dict(consts=True, method=m, span=list(sp), dt0=0.125, tol=1e-8, dtype="float64", how=how)
+                  for m in ("RK4Solver", "RK45CKSolver", "DOPRI45", "ImplicitMidpoint", "ABAs5o6HSolver", "RK8713MSolver") + (() if ctx.quick else ("RadauIIA5", "RICH:RK4Solver:3"))
+                  for sp in ((0.0, 2.0), (1.0, -1.0)) for how in ("assign", "in-place")]
+        grid.pmap(consts_case, ccases, ctx, section="consts", horizon=300)
     if not ctx.only or "shape" in ctx.only:
-        from mc.core import grid
         scases = []
         for m in ["RK4Solver", "RK45CKSolver", "ABAs5o6HSolver", "ImplicitMidpoint", "RICH:RK4Solver:3"] + ([] if ctx.quick else ["DOPRI45", "RadauIIA5", "BackwardEuler", "RK8713MSolver"]):
             for shape in ([], [1], [2, 3], [2, 1, 2]):
@@ -284,6 +358,8 @@ def run(ctx):
 
 
 def replay(case):
+    if case.get("consts"):
+        return consts_case({k: v for k, v in case.items() if k not in ("frac",)})
     if "shape" in case:
         return shape_case({k: v for k, v in case.items() if k != "q"})
     cfg = {k: v for k, v in case.items() if k not in ("hist", "step", "frac", "row", "_depth")}
